@@ -251,6 +251,120 @@ def r2(ctx, F, rule, sfx):
     if mds:
         a = mds[0].fargs
         ctx.check(rule, 'cell-bound-for-the-query' + sfx, 'sp.cells[' in repr(a[0]) and repr(a[1]) == repr(mfs[0].fargs[1]), [repr(x)[-60:] for x in a], 'the ring cell and the query position', w, key_extra='skip-args')
+    # the two pruning decisions are the ONLY ways to prune: tabulate, over every condition the loop tests, when the search goes on
+    # to the next ring and when a ring cell's particles are examined.  Conditions other than the ones named here are free atoms:
+    # the requirement has to hold whichever way they fall.
+    free = {}
+    free_txt = {}
+
+    def classify(leaf):
+        t = repr(leaf)
+        d = dtab.is_discr_eq(leaf)
+        if d is not None and '::next(' in repr(d[0]):
+            return ('const', (d[1] == 1) == d[2])
+        if leaf.op == 'cmp':
+            op, a, b = leaf.args
+            ta, tb = repr(a), repr(b)
+            if {ta, tb} == {'k', '0'} and op in ('==', '!='):
+                return ('K0', op == '==')
+            if 'BinaryHeap::len(' in ta + tb and 'k' in (ta, tb):
+                lhs_len = 'BinaryHeap::len(' in ta
+                full = {'==': True, '!=': False, '<': not lhs_len, '>=': lhs_len, '>': None, '<=': None}[op]
+                if full is not None:
+                    return ('FULL', full)
+            if leaf.key() == l.key():
+                return ('STOP', True)
+            if stop_neg is not None and leaf.key() == stop_neg.key():
+                return ('STOP', False)
+            if skip is not None and leaf.key() == skip.key():
+                return ('SKIP', True)
+            if skip_neg is not None and leaf.key() == skip_neg.key():
+                return ('SKIP', False)
+            if ta.endswith('.id') and tb.endswith('.id') and op in ('==', '!='):
+                return ('const', op == '!=')          # another particle (the particle itself is never its own neighbour)
+            if (ta.endswith('.count') and tb == '0') or (tb.endswith('.count') and ta == '0'):
+                cnt_left = ta.endswith('.count')
+                empty = {'==': True, '!=': False, '<=': cnt_left, '>': not cnt_left, '<': (not cnt_left) and None, '>=': None}.get(op)
+                if empty is not None:
+                    return ('EMPTY', empty)
+        k_ = leaf.key()
+        if k_ not in free:
+            free[k_] = 'X%d' % len(free)
+            free_txt[free[k_]] = repr(leaf)
+        return (free[k_], True)
+
+    def negation_of(x):
+        if x is None:
+            return None
+        for cand in leaves.values():
+            if cand.op == 'cmp' and cand.key() != x.key():
+                o1, a1, b1 = x.args
+                o2, a2, b2 = cand.args
+                if repr(a1) == repr(b2) and repr(b1) == repr(a2) and (o1, o2) in (('<', '<='), ('<=', '<')):
+                    return cand
+        return None
+    # l is "kth < bound" (stop) or "bound <= kth" (continue): normalise
+    if not ((side == 2 and l.args[0] == '<') or (side == 1 and l.args[0] == '>')):
+        stop_pos, stop_neg = negation_of(l), l
+        if stop_pos is None:
+            stop_pos = l
+            stop_neg = None
+            pol_stop = False
+        else:
+            l = stop_pos
+            pol_stop = True
+    else:
+        stop_neg = negation_of(l)
+        pol_stop = True
+    skip_neg = negation_of(skip)
+
+    def dnf_rows(guards, names_needed):
+        # guards: list of guard tuples (each a conjunction); -> list of (env, value)
+        for g in guards:
+            for c in g:
+                for lf in dtab.b_leaves(c).values():
+                    classify(lf)
+        names = ['K0', 'FULL', 'STOP', 'SKIP', 'EMPTY'] + sorted(set(free.values()))
+        T2 = dtab.Table(names, classify)
+        out = []
+        for env in T2.rows():
+            unknown = []
+            val = T2.valuation(env, unknown)
+            out.append((env, any(dtab.conj(g, val) for g in guards)))
+        return out
+    ringL = None
+    for L in ip.loops:
+        if L['body'] is kb and any(l.key() in dtab.b_leaves(c) or (stop_neg is not None and stop_neg.key() in dtab.b_leaves(c)) for g, _v in L['back'] for c in g):
+            ringL = L
+    if ringL is None:
+        ctx.bad(rule, 'search-continues-unless-bound-exceeded' + sfx, 'the termination test does not control a loop back edge', 'ring loop continues iff not (heap full and bound exceeded)', w, key_extra='no-ring-loop')
+    else:
+        base = [g for g, _v in ringL['back']]
+        badrows = []
+        for env, taken in dnf_rows(base, None):
+            stop_now = env['FULL'] and (env['STOP'] if pol_stop else not env['STOP'])
+            if not env['K0'] and not stop_now and not taken:
+                row = {k_: v_ for k_, v_ in env.items() if k_ not in ('STOP', 'SKIP', 'EMPTY') and (v_ or k_ == 'FULL')}
+                row['BOUND-EXCEEDED'] = (env['STOP'] if pol_stop else not env['STOP'])
+                badrows.append(dtab.fmt_env(row))
+        inv = dict(free_txt)
+        ctx.check(rule, 'search-continues-unless-bound-exceeded' + sfx, not badrows, ('search ends although the bound is not exceeded when [%s]%s' % (badrows[0], ''.join('; %s is %s' % (n, inv[n][:120]) for n in sorted(inv) if n in badrows[0]))) if badrows else 'next ring is searched in every row without (heap full and k-th best < bound)',
+                  'the ring loop is left only when k == 0 or (heap full and k-th best d^2 < bound^2)', w, key_extra='stop-only')
+    dse = [e for e in ip.events if e.body is kb and e.callee and strip_generics(e.callee).endswith('Part::distance_squared')]
+    if dse and skip is not None:
+        free.clear()
+        free_txt.clear()
+        # only the conditions up to the cell level: drop the leaves introduced inside the particle loop (self test, iteration)
+        badrows = []
+        for env, examined in dnf_rows([e.guard for e in dse], None):
+            skip_now = env['FULL'] and env['SKIP']
+            if not env['K0'] and not env['EMPTY'] and not skip_now and not examined:
+                row = {k_: v_ for k_, v_ in env.items() if k_ not in ('STOP', 'SKIP') and (v_ or k_ == 'FULL')}
+                row['CELL-BOUND-EXCEEDED'] = env['SKIP']
+                badrows.append(dtab.fmt_env(row))
+        inv = dict(free_txt)
+        ctx.check(rule, 'cell-examined-unless-bound-exceeded' + sfx, not badrows, ('a ring cell is not examined although its bound does not exceed the k-th best when [%s]%s' % (badrows[0], ''.join('; %s is %s' % (n, inv[n][:120]) for n in sorted(inv) if n in badrows[0]))) if badrows else 'particles of a ring cell are examined in every row without (heap full and k-th best < cell bound)',
+                  'a non-empty ring cell is skipped only when heap full and k-th best d^2 < min_distance_squared(cell)', w, key_extra='skip-only')
     # heap order
     cmpb = [b for b in F.bodies if b.get('impl_trait') == 'std::cmp::Ord' and b['path'].endswith('::cmp') and 'knn' in b['path']]
     if len(cmpb) == 1:
